@@ -1142,6 +1142,45 @@ def c08_programs(tier, sd):
                     "ops": [["set", ["top", "items", 0, "p"], 7], ["set", ["top", "items", 1, "p"], 9], ["set", ["top", "items", 2, "p"], 30], ["set", ["top", "items", 3, "p"], 41],
                             ["set", ["top", "items", 0, "q"], 1], ["set", ["top", "items", 1, "q"], 2], ["set", ["top", "items", 2, "q"], 3], ["set", ["top", "items", 3, "q"], 4],
                             ["randomize", ["top"]], ["randomize", ["top"]], ["vsc_randomize", [["top", "items", 2]]], ["randomize_with", ["top"], [E(["<", F("items", 0, "p"), lit(9)])]]]})
+    # seeded random cross-level constraint sets over the same tree (unsigned leaves against each other / literals; signed leaves
+    # against signed leaves / literals), random rand flags, direct calls on sub-objects and list elements
+    for i in range(10 if tier == "quick" else 1500):
+        r1, r2, rl = rnd.random() < 0.7, rnd.random() < 0.6, rnd.random() < 0.7
+        nl = rnd.randint(2, 3)
+        ul = [F("a"), F("s1", "x"), F("s1", "y"), F("s2", "x"), F("s2", "y"), F("s1", "inner", "p"), F("s2", "inner", "p")] + \
+             [F("l", k, f) for k in range(nl) for f in ("x", "y")] + [F("l", k, "inner", "p") for k in range(nl)]
+        sl = [F("s1", "inner", "q"), F("s2", "inner", "q")] + [F("l", k, "inner", "q") for k in range(nl)]
+        cs = []
+        for _ in range(rnd.randint(1, 4)):
+            k = rnd.random()
+            op = rnd.choice(["<", "<=", ">", ">=", "==", "!="])
+            if k < 0.5:
+                x, y = rnd.sample(ul, 2)
+                cs.append(E([op, x, y]))
+            elif k < 0.65:
+                cs.append(E([op, rnd.choice(ul), lit(rnd.choice([0, 1, 50, 99, 100, 199, 200, 255]))]))
+            elif k < 0.8:
+                x, y = rnd.sample(sl, 2)
+                cs.append(E([op, x, y]))
+            elif k < 0.9:
+                cs.append(["if", [[[op, rnd.choice(ul), lit(rnd.randint(0, 255))], [E([rnd.choice(["<", ">", "!="]), rnd.choice(ul), rnd.choice(ul)])]]], None])
+            else:
+                cs.append(["foreach", ["l"], "i", [E([op, ["it", "i", rnd.choice(["x", "y"])], rnd.choice(ul[:7])])]])
+        Top = {"name": "Top", "fields": [fld("a", ("u", 8)), ["s1", "obj", "Sub", r1], ["s2", "obj", "Sub", r2], ["l", "list", ["obj", "Sub"], nl, rl, False]],
+               "blocks": [["tb", "c", cs]]}
+        ops = []
+        for pth in ([["top", "s1", "k"], ["top", "s2", "k"]] + [["top", "l", k, "k"] for k in range(nl)]):
+            ops.append(["set", pth, rnd.randint(0, 15)])
+        for pth, hi in [(["top", "s1", "x"], 99), (["top", "s2", "x"], 99), (["top", "s1", "inner", "p"], 199), (["top", "s2", "inner", "p"], 199), (["top", "s2", "y"], 255),
+                        (["top", "s1", "y"], 255)] + [(["top", "l", k, "x"], 99) for k in range(nl)] + [(["top", "l", k, "inner", "p"], 199) for k in range(nl)]:
+            ops.append(["set", pth, rnd.randint(0, hi)])
+        for pth in [["top", "s1", "inner", "q"], ["top", "s2", "inner", "q"]] + [["top", "l", k, "inner", "q"] for k in range(nl)]:
+            ops.append(["set", pth, rnd.choice([-128, -5, -1, 1, 7, 127])])
+        calls = [["randomize", ["top"]], ["randomize", ["top"]], ["vsc_randomize", [["top", "s1"]]], ["vsc_randomize", [["top", "l", rnd.randrange(nl)]]],
+                 ["vsc_randomize", [["top", "s2", "inner"]]], ["randomize_with", ["top"], [E([rnd.choice(["<", ">"]), rnd.choice(ul), rnd.choice(ul)])]]]
+        rnd.shuffle(calls)
+        out.append({"tag": "tree_random", "desc": "seeded random tree #%d (s1 rand=%s s2 rand=%s list rand=%s)" % (i, r1, r2, rl), "prog": {"enums": {}, "classes": [Leaf, Sub, Top]},
+                    "world": [["top", "obj", "Top"]], "ops": ops + calls[:4]})
     for r1, r2, rl in itertools.product((True, False), (True, False), (True, False)):
         if tier == "quick" and (r1, r2, rl) in ((False, False, True), (False, True, False)):
             continue
@@ -1275,6 +1314,8 @@ def c14_programs(tier, sd):
                [E([">", F("e"), ["enum", "E4", "Q"]])], [E(["==", F("a"), lit(3)])]):
         out.append({"tag": "bounds_enum", "desc": "enum bounds %s" % (st,), "prog": one_class(ef, st, ENUMS), "world": [["top", "obj", "Top"]],
                     "ops": [["randomize", ["top"]], ["randomize", ["top"]]]})
+    # seeded random programs (the inferred domains of every random field are decided against the reference)
+    out += [dict(p, tag="bounds_random") for p in random_programs(rnd, 40 if tier == "quick" else 4000)]
     return out + [dict(p, tag="stmt:" + p["tag"]) for p in statement_programs(tier, rnd) if p["tag"] in ("in", "in_rl", "ifelse", "bool", "unique")][::(1 if tier == "thorough" else 3)]
 
 
